@@ -34,11 +34,21 @@ def apply(nc, a):
     if op == "empty":
         nc.empty()
     elif op == "add_note_obj":
-        nc.add_note(Note(txt(a["n"]), a["o"]))
+        # every other time the note carries its own channel and velocity (they play no part in which pitches a container holds)
+        if len(nc.notes) % 2:
+            nc.add_note(Note(txt(a["n"]), a["o"], channel=7, velocity=33))
+        else:
+            nc.add_note(Note(txt(a["n"]), a["o"]))
     elif op == "add_bare":
         nc.add_note(txt(a["n"]))
     elif op == "add_name_oct":
-        nc.add_note(txt(a["n"]), a["o"])
+        form = len(nc.notes) % 3          # plain; with a dynamics dictionary; as a [name, octave, dynamics] list element
+        if form == 0:
+            nc.add_note(txt(a["n"]), a["o"])
+        elif form == 1:
+            nc.add_note(txt(a["n"]), a["o"], {"channel": 5, "velocity": 20})
+        else:
+            nc.add_notes([[txt(a["n"]), a["o"], {"channel": 9}]])
     elif op == "add_list":
         nc.add_notes([item(i) for i in a["items"]])
     elif op == "plus_list":
